@@ -170,11 +170,13 @@ PROPS["C18"] = dict(
 )
 
 PROPS["C19"] = dict(
-    units=[("kani", "pcapcodec"), ("verus", "pcapio")],
+    units=[("kani", "pcapcodec"), ("verus", "pcapio"), ("verus", "pcapbuiltins")],
     explanation="Global and record header codecs verified on all 24/16 header bytes: accepted magics, little-endian field layout, encode(decode(b)) == b; short buffers are errors. "
                 "Pcap::next_packet is verified against the stream model for files and stdin: it succeeds exactly when the stream holds a complete record with caplen <= snaplen, "
-                "returns that record's header fields and bytes, and consumes exactly 16 + caplen bytes; any other handle is an error.",
-    not_covered=["pcap_read_all / pcap_read_next loops over next_packet (thin wrappers: stop at UnexpectedEof, propagate other errors as error objects)", "write_all + BufWriter (std)", "OS delivery of file bytes"],
+                "returns that record's header fields and bytes, and consumes exactly 16 + caplen bytes; any other handle is an error. The builtins on top of it (pcapbuiltins unit, real bodies, loop invariant over the stream of complete records): "
+                "pcap_read_next returns the next record and advances the stream by it, null at a clean end or truncated tail, an error object at a damaged one; pcap_read_all(f[, n]) returns exactly the next min(n, remaining) records in file order "
+                "and advances the stream by as many (an error object if a damaged tail is reached first); pcap_write returns the byte count or the error object.",
+    not_covered=["write_all + BufWriter (std)", "OS delivery of file bytes", "the write-then-read round trip through a real file (follows from the two stream contracts and C15 under the stream model)"],
     assumptions=["read_exact fails only with end of input (other I/O errors are outside the stream model)"],
     trusted=COMMON_TRUST,
 )
@@ -189,11 +191,11 @@ PROPS["C21"] = dict(
 )
 
 PROPS["C22"] = dict(
-    units=[("verus", "iobuiltins"), ("verus", "fileio")],
+    units=[("verus", "iobuiltins"), ("verus", "fileio"), ("verus", "pcapbuiltins")],
     explanation="With every OS call replaced by a shim that may fail arbitrarily: flush on a writer/stdout/stderr always returns Ok(object) (no expect/unwrap reachable, "
                 "no runtime error); open with well-formed arguments always returns Ok(object); pcap_stream with a wrong arity is a runtime error (not an index panic) and with "
-                "stdin/stdout always Ok(object); pcap_open returns the error object of a failed open unchanged; read_from_file turns a failing read into an error object.",
-    not_covered=["read_line, read_to_string, write, pcap_read_next, pcap_read_all, pcap_write (same pattern, not under contract)",
+                "stdin/stdout always Ok(object); pcap_open returns the error object of a failed open unchanged; read_from_file turns a failing read into an error object; pcap_read_next / pcap_read_all return an error object (never a runtime error) for a damaged record and null / the records read so far at end of input; pcap_write returns an error object exactly when the OS write fails.",
+    not_covered=["read_line, read_to_string, write (same pattern, not under contract; exercised by the bounded stand-in)",
                  "that the object returned on an OS failure is the Err variant carrying that failure (the shim's result is not visible in the postcondition; only Ok-ness and panic-freedom are)"],
     assumptions=["the OS shims' results are arbitrary Result values (no assumption on the OS)"],
     trusted=COMMON_TRUST,
